@@ -56,31 +56,77 @@ theorem docx_decodes_iff_depth (p : Node) : paraDecodes p = true ↔ nestList p.
   · simp only [h, if_true, Option.isSome_some, true_iff]; omega
   · simp only [h, if_false, Option.isSome_none, Bool.false_eq_true, false_iff]; omega
 
-/-- … and for the document: `Open` succeeds exactly when every paragraph `xml.Unmarshal`
-decodes stays within the depth bound -/
-theorem docx_open_iff_depth (doc : Node) :
-    documentDecodes doc = true ↔ ∀ p ∈ decodedParas doc, nestList p.kids ≤ maxInlineDepth := by
-  unfold documentDecodes
-  rw [List.all_eq_true]
-  constructor
-  · intro h p hp; exact (docx_decodes_iff_depth p).mp (h p hp)
-  · intro h p hp; exact (docx_decodes_iff_depth p).mpr (h p hp)
+/-- **docx_blocks_within / docx_blocks_beyond**. `decodeBlocks` (the body's and the cells'
+`UnmarshalXML`): block containers (`w:sdt`, `w:sdtContent`, `w:customXml`) nested at most 10000
+deep are looked through and the block level `blocksOfList` is what the callback is offered, in
+document order; one level more and the error "block containers nested deeper than 10000
+levels" is returned. -/
+theorem docx_blocks_within (kids : List Node) (h : blockNestList kids ≤ maxInlineDepth) :
+    decodeBlocksList 0 kids = some (blocksOfList kids) := by
+  rw [decodeBlocksList_eq kids 0 (Nat.zero_le _)]
+  simp [h]
 
-/-- **docx_open_within / docx_open_beyond**: the element list `Open` leaves -/
+theorem docx_blocks_beyond (kids : List Node) (h : blockNestList kids > maxInlineDepth) :
+    decodeBlocksList 0 kids = none := by
+  rw [decodeBlocksList_eq kids 0 (Nat.zero_le _)]
+  have : ¬ (0 + blockNestList kids ≤ maxInlineDepth) := by omega
+  rw [if_neg this]
+
+/-- … and for the document: `Open` succeeds exactly when every paragraph `xml.Unmarshal`
+decodes stays within the depth bound, and so do the block containers of the body and of every
+cell it decodes -/
+theorem docx_open_iff_depth (doc : Node) :
+    documentDecodes doc = true ↔
+      (∀ ks ∈ decodedScopes doc, blockNestList ks ≤ maxInlineDepth) ∧
+      (∀ p ∈ decodedParas doc, nestList p.kids ≤ maxInlineDepth) := by
+  unfold documentDecodes
+  rw [Bool.and_eq_true, List.all_eq_true, List.all_eq_true]
+  constructor
+  · intro h
+    exact ⟨fun ks hk => (blocksDecode_iff ks).mp (h.1 ks hk), fun p hp => (docx_decodes_iff_depth p).mp (h.2 p hp)⟩
+  · intro h
+    exact ⟨fun ks hk => (blocksDecode_iff ks).mpr (h.1 ks hk), fun p hp => (docx_decodes_iff_depth p).mpr (h.2 p hp)⟩
+
+/-- **docx_open_within / docx_open_beyond / docx_open_beyond_blocks**: the element list `Open` leaves -/
 theorem docx_open_within (doc : Node) (styles : Option Node)
+    (hb : ∀ ks ∈ decodedScopes doc, blockNestList ks ≤ maxInlineDepth)
     (h : ∀ p ∈ decodedParas doc, nestList p.kids ≤ maxInlineDepth) :
     openElements doc styles = some (elements doc styles) := by
   unfold openElements
-  rw [if_pos ((docx_open_iff_depth doc).mpr h)]
+  rw [if_pos ((docx_open_iff_depth doc).mpr ⟨hb, h⟩)]
 
 theorem docx_open_beyond (doc : Node) (styles : Option Node) (p : Node) (hp : p ∈ decodedParas doc)
     (h : nestList p.kids > maxInlineDepth) : openElements doc styles = none := by
   unfold openElements
   have : ¬ (documentDecodes doc = true) := by
     intro hd
-    have := (docx_open_iff_depth doc).mp hd p hp
+    have := ((docx_open_iff_depth doc).mp hd).2 p hp
     omega
   rw [if_neg this]
+
+/-- block containers nested deeper than 10000 in the body or in a decoded cell: `Open` fails -/
+theorem docx_open_beyond_blocks (doc : Node) (styles : Option Node) (ks : List Node) (hk : ks ∈ decodedScopes doc)
+    (h : blockNestList ks > maxInlineDepth) : openElements doc styles = none := by
+  unfold openElements
+  have : ¬ (documentDecodes doc = true) := by
+    intro hd
+    have := ((docx_open_iff_depth doc).mp hd).1 ks hk
+    omega
+  rw [if_neg this]
+
+/-- the edge: 10000 nested `w:customXml` around a paragraph are looked through (the paragraph
+is a block of the body), 10001 are refused -/
+def wCustomXml : Str := [119, 58, 99, 117, 115, 116, 111, 109, 88, 109, 108]
+def aPara : Node := .elem [119, 58, 112] [] [.elem [119, 58, 114] [] [.elem [119, 58, 116] [] [.text [65]]]]
+
+example : decodeBlocksList 0 (wrapN wCustomXml 10000 [aPara]) = some [aPara]
+    ∧ decodeBlocksList 0 (wrapN wCustomXml 10001 [aPara]) = none := by
+  have hc : blockContainers.contains (localName wCustomXml) = true := by decide
+  have hn : blockNestList [aPara] = 0 := by decide
+  constructor
+  · rw [docx_blocks_within _ (by rw [blockNest_wrapN wCustomXml hc, hn]; decide), blocks_wrapN wCustomXml hc]
+    rfl
+  · exact docx_blocks_beyond _ (by rw [blockNest_wrapN wCustomXml hc, hn]; decide)
 
 /-- **docx_decode_depth_bounded** (bounded work, every input). `decodeContent` is never entered
 with a depth above `maxInlineDepth + 1` = 10001 - the last one being the call that returns the
